@@ -519,7 +519,13 @@ def classify(tr: dict, items: list[dict], check: str) -> list[tuple[dict, dict]]
         it = next((x for x in state if x["c"] == "ml"), state[0])
         obs = observed_item(tr, it)
         exc = obs.get("exc", "") if isinstance(obs, dict) else ("raised" if obs == RAISED else "")
-        kind = "observer_raises" if exc else ("dump_wrong_cells" if e["op"] == "dump" else "state_changed")
+        cs = {x["c"] for x in state}
+        if exc:
+            kind = "observer_raises"
+        elif cs <= {"ml", "mask"} or cs == {"has"}:
+            kind = "state_observer_wrong:" + "+".join(sorted(cs))   # the other state observers agree with the spec
+        else:
+            kind = "dump_wrong_cells" if e["op"] == "dump" else "state_changed"
         return [(dict(mut, clause="state", kind=kind, exc=exc), it)]
     out, seen = [], set()
     for it in items:
